@@ -89,14 +89,14 @@ inductive Tok
   | eof
   deriving DecidableEq, Repr
 
-/-- Program counter of a goroutine inside `Close()` (which contains `Suspend()`). -/
+/-- Program counter of a goroutine inside `Close()` (which contains `Suspend()`) or inside a bare
+`Suspend()`. -/
 inductive CPc
-  /-- `if vx.closed { return }` -/
+  /-- `closeMu.Lock(); if vx.closed { unlock; return }; vx.closed = true; unlock` — one atomic
+  test-and-set (F33 repaired: /repo "fix: Close is safe against concurrent callers") -/
   | checkFlag
   /-- `vx.PostEvent(QuitEvent{})` -/
   | postQuit
-  /-- `vx.closed = true` -/
-  | setFlag
   /-- `Suspend`: `if vx.suspended { return nil }; vx.suspended = true` -/
   | checkSuspended
   /-- `vx.parser.Close()` = `p.close <- true` -/
@@ -108,6 +108,12 @@ inductive CPc
   /-- the rest of `Suspend`, `console.Close()`, deferred `close(vx.chQuit)` -/
   | closeQuit
   | returned
+  deriving DecidableEq, Repr
+
+/-- A goroutine (not the input goroutine) inside `Close()` (`inClose`) or inside a bare `Suspend()`. -/
+structure Caller where
+  pc : CPc
+  inClose : Bool := true
   deriving DecidableEq, Repr
 
 /-- Program counter of the input goroutine of `openTty`. -/
@@ -136,13 +142,19 @@ structure SSys where
   closedSig : Nat := 0
   ipc : IPc := .select
   killSig : Bool := false
-  /-- goroutines other than the input goroutine that are executing `Close()` -/
-  callers : List CPc := []
+  /-- goroutines other than the input goroutine that are executing `Close()` / `Suspend()` -/
+  callers : List Caller := []
   closedFlag : Bool := false
   suspendedFlag : Bool := false
   /-- how many times `close(vx.chQuit)` ran (2 = "close of closed channel" panic) -/
   quitCloses : Nat := 0
   da1Pending : Nat := 0
+  /-- statement order inside `Suspend` (a fact of the source, `Gen.Conc.skeleton_Suspend`): `false` =
+  close signal first, then the DA1 query that wakes the reader (the code as it is); `true` = the
+  query first -/
+  da1First : Bool := false
+  /-- `Resume` clears `vx.suspended` (a fact of the source, `Gen.Conc.skeleton_Resume`) -/
+  resumeClears : Bool := true
   deriving DecidableEq, Repr
 
 inductive SLabel
@@ -161,19 +173,32 @@ inductive SLabel
   | signal
   /-- another goroutine calls `Close()` -/
   | callClose
-  /-- the `j`-th caller of `Close()` takes one step -/
+  /-- another goroutine calls `Suspend()` -/
+  | callSuspend
+  /-- `Resume()`: `openTty` starts a new parser and a new input goroutine (modelled when the
+  previous ones have finished), `vx.suspended = false` -/
+  | resume
+  /-- the `j`-th caller of `Close()` / `Suspend()` takes one step -/
   | caller (j : Nat)
   deriving DecidableEq, Repr
 
-/-- One step of `Close()` on some goroutine; `none` = blocked. -/
-def closeStep (s : SSys) : CPc → Option (SSys × CPc)
-  | .checkFlag => some (s, if s.closedFlag then .returned else .postQuit)
-  | .postQuit => some ({ s with queueLen := if s.queueLen < s.qcap then s.queueLen + 1 else s.queueLen }, .setFlag)
-  | .setFlag => some ({ s with closedFlag := true }, .checkSuspended)
-  | .checkSuspended => if s.suspendedFlag then some (s, .closeQuit) else some ({ s with suspendedFlag := true }, .signalClose)
-  | .signalClose => if s.closeSig < 1 then some ({ s with closeSig := s.closeSig + 1 }, .writeDA1) else none
-  | .writeDA1 => some ({ s with da1Pending := s.da1Pending + 1 }, .waitClosed)
-  | .waitClosed => if s.closedSig > 0 then some ({ s with closedSig := s.closedSig - 1 }, .closeQuit) else none
+/-- Where `Suspend` goes after its guard, after the close signal and after the DA1 query, in the
+two statement orders. -/
+def afterGuard (s : SSys) : CPc := if s.da1First then .writeDA1 else .signalClose
+def afterSignal (s : SSys) : CPc := if s.da1First then .waitClosed else .writeDA1
+def afterDA1 (s : SSys) : CPc := if s.da1First then .signalClose else .waitClosed
+/-- Where the goroutine is when `Suspend` has returned: inside `Close` the rest of `Close`. -/
+def afterSuspend (inClose : Bool) : CPc := if inClose then .closeQuit else .returned
+
+/-- One step of `Close()` / `Suspend()` on some goroutine; `none` = blocked. -/
+def closeStep (s : SSys) (inClose : Bool) : CPc → Option (SSys × CPc)
+  | .checkFlag => if s.closedFlag then some (s, .returned) else some ({ s with closedFlag := true }, .postQuit)
+  | .postQuit => some ({ s with queueLen := if s.queueLen < s.qcap then s.queueLen + 1 else s.queueLen }, .checkSuspended)
+  | .checkSuspended =>
+      if s.suspendedFlag then some (s, afterSuspend inClose) else some ({ s with suspendedFlag := true }, afterGuard s)
+  | .signalClose => if s.closeSig < 1 then some ({ s with closeSig := s.closeSig + 1 }, afterSignal s) else none
+  | .writeDA1 => some ({ s with da1Pending := s.da1Pending + 1 }, afterDA1 s)
+  | .waitClosed => if s.closedSig > 0 then some ({ s with closedSig := s.closedSig - 1 }, afterSuspend inClose) else none
   | .closeQuit => some ({ s with quitCloses := s.quitCloses + 1 }, .returned)
   | .returned => none
 
@@ -208,20 +233,26 @@ def snext (s : SSys) : SLabel → Option SSys
       | .posting 0 => some { s with ipc := .select }
       | .posting (k + 1) => if s.queueLen < s.qcap then some { s with queueLen := s.queueLen + 1, ipc := .posting k } else none
       | .closing c =>
-          match closeStep s c with
+          match closeStep s true c with
           | some (s', .returned) => some { s' with ipc := .done }     -- `vx.Close(); return`
           | some (s', c') => some { s' with ipc := .closing c' }
           | none => none
       | _ => none
   | .consume => if s.consumer && s.queueLen > 0 then some { s with queueLen := s.queueLen - 1 } else none
   | .signal => if s.killSig then none else some { s with killSig := true }
-  | .callClose => some { s with callers := s.callers ++ [.checkFlag] }
+  | .callClose => some { s with callers := s.callers ++ [{ pc := .checkFlag, inClose := true }] }
+  | .callSuspend => some { s with callers := s.callers ++ [{ pc := .checkSuspended, inClose := false }] }
+  | .resume =>
+      if s.ppc == .done && s.ipc == .done then
+        some { s with ppc := .top, seqs := [], seqsClosed := false, closeSig := 0, closedSig := 0, ipc := .select,
+                      suspendedFlag := if s.resumeClears then false else s.suspendedFlag }
+      else none
   | .caller j =>
       match s.callers[j]? with
       | none => none
       | some c =>
-        match closeStep s c with
-        | some (s', c') => some { s' with callers := s'.callers.set j c' }
+        match closeStep s c.inClose c.pc with
+        | some (s', c') => some { s' with callers := s'.callers.set j { c with pc := c' } }
         | none => none
 
 def srun : SSys → List SLabel → Option SSys
@@ -234,15 +265,21 @@ inductive SReachable (s0 : SSys) : SSys → Prop
   | init : SReachable s0 s0
   | step {s s' : SSys} (l : SLabel) : SReachable s0 s → snext s l = some s' → SReachable s0 s'
 
-/-- Everything the library started has finished and every `Close()` has returned. -/
+/-- Everything the library started has finished and every `Close()` / `Suspend()` has returned. -/
 def SSys.final (s : SSys) : Bool :=
-  s.ppc == .done && s.ipc == .done && s.callers.all (· == .returned)
+  s.ppc == .done && s.ipc == .done && s.callers.all (·.pc == .returned)
 
 /-- Labels that do not need the terminal to send anything new nor the application to do anything:
 steps of the library's own goroutines and of the callers of `Close`, and the terminal's answer to
 a DA1 query that was written. -/
 def SLabel.internal : SLabel → Bool
   | .parser | .inputRecv | .inputStep | .caller _ | .termReply => true
+  | _ => false
+
+/-- What a scheduler may pick on its own: the internal labels, the signal arm of the input
+goroutine's `select`, and the application receiving an event. -/
+def SLabel.sched : SLabel → Bool
+  | .parser | .inputRecv | .inputKill | .inputStep | .caller _ | .termReply | .consume => true
   | _ => false
 
 /-- `close(vx.chQuit)` ran twice: "panic: close of closed channel". -/
@@ -252,6 +289,9 @@ def SSys.panicked (s : SSys) : Bool := s.quitCloses ≥ 2
 def SSys.stuck (s : SSys) : Bool :=
   (snext s .parser).isNone && (snext s .inputRecv).isNone && (snext s .inputKill).isNone && (snext s .inputStep).isNone &&
   (snext s .termReply).isNone && (List.range s.callers.length).all fun j => (snext s (.caller j)).isNone
+
+/-- Nothing a scheduler may pick is enabled (`stuck`, and the application has nothing to receive). -/
+def SSys.quiescent (s : SSys) : Bool := s.stuck && (snext s .consume).isNone
 
 end VaxisModel.Model.Conc
 
